@@ -15,7 +15,7 @@ for sid in ids:
         for i in range(1, 21):
             p = 'C%02d' % i
             out = subprocess.run(['./check', p, '--no-evidence'], cwd='/verif', capture_output=True, text=True).stdout
-            hits = re.findall(r'^\[(C\d\d\.\w+)\] (.+?): \S+ :: ', out, flags=re.M)
+            hits = re.findall(r'^\[(C\d\d\.\w+)\] (.+?): \S* :: ', out, flags=re.M)
             if 'CHECK-BROKEN' in out:
                 res[p] = ['CHECK-BROKEN']
             elif hits:
